@@ -15,6 +15,7 @@ import numpy as np
 from chmpy.core.element import Element
 from chmpy.core.molecule import Molecule
 from chmpy.crystal import AsymmetricUnit, Crystal, SpaceGroup, UnitCell
+from chmpy.crystal.space_group import SG_FROM_SYMOPS
 from chmpy.crystal.symmetry_operation import SymmetryOperation
 
 TOL = 1e-8
@@ -60,12 +61,18 @@ def occupation_of(asym):
 
 def norm_crystal(c):
     uc, sg, au = c.unit_cell, c.space_group, c.asymmetric_unit
+    codes = sorted(int(s.integer_code) for s in sg.symmetry_operations)
+    # for a tabulated setting the number and choice follow from the operations;
+    # for a non-tabulated one the reader takes the number from an optional CIF
+    # item that a freshly constructed crystal's export does not carry, so there
+    # the operation set alone identifies the group
+    tabulated = tuple(codes) in SG_FROM_SYMOPS
     return {
         "__crystal__": 1,
         "direct": _arr(uc.direct),
-        "it_number": int(sg.international_tables_number),
-        "choice": str(sg.choice),
-        "symops": sorted(int(s.integer_code) for s in sg.symmetry_operations),
+        "it_number": int(sg.international_tables_number) if tabulated else None,
+        "choice": str(sg.choice) if tabulated else None,
+        "symops": codes,
         "numbers": _arr(au.atomic_numbers),
         "positions": _arr(au.positions),
         "labels": [str(x) for x in au.labels],
